@@ -647,6 +647,17 @@ func (s *Service) streamResponse(clientCtx, upstreamCtx context.Context, w http.
 	readDeadline := time.NewTimer(s.configuration.GetReadTimeout())
 	defer readDeadline.Stop()
 
+	// The deadline timer above is only looked at between reads, but a backend that goes
+	// silent keeps us blocked inside resp.Body.Read, so on its own it never fires in time.
+	// A watchdog closes the response body when no read has completed for read_timeout,
+	// which makes the blocked Read return; it is re-armed before every read.
+	var stalled atomic.Bool
+	watchdog := time.AfterFunc(s.configuration.GetReadTimeout(), func() {
+		stalled.Store(true)
+		_ = resp.Body.Close()
+	})
+	defer watchdog.Stop()
+
 	for {
 		// Check for context cancellation
 		if err := s.checkContexts(clientCtx, upstreamCtx, readDeadline, state, rlog); err != nil {
@@ -664,9 +675,13 @@ func (s *Service) streamResponse(clientCtx, upstreamCtx context.Context, w http.
 			}
 		}
 		readDeadline.Reset(s.configuration.GetReadTimeout())
+		watchdog.Reset(s.configuration.GetReadTimeout())
 
 		// Read and process data
 		if err := s.processStreamData(resp, buffer, state, w, isStreaming, rc, rlog); err != nil {
+			if stalled.Load() {
+				return state.totalBytes, state.lastChunk, fmt.Errorf("read timeout after %v", s.configuration.GetReadTimeout())
+			}
 			if errors.Is(err, io.EOF) {
 				return state.totalBytes, state.lastChunk, nil
 			}
